@@ -78,8 +78,11 @@ func PoolEvent(w *PoolWorld, c *Cast, ev string) error {
 		_, err := w.Peer(context.Background(), c.ByName[f[1]], k, "")
 		return err
 	case "withdraw":
-		ok := len(f) < 3 || f[2] == "ok"
+		ok := len(f) < 3 || f[2] != "fail"
 		w.SettleOK = func(int) bool { return ok }
+		if len(f) > 2 && f[2] == "gone" {
+			return w.WithdrawGone(c.ByName[f[1]])
+		}
 		return w.Withdraw(c.ByName[f[1]])
 	case "dep":
 		acct := store.Account(c.ByName[f[1]].Wallet)
